@@ -70,7 +70,8 @@ Inductive case :=
           (ug : list (sym * list (list sym))) (terminals : list sym)   (* terminals: used when tk = None *)
           (smart : bool) (start : sym) (fuel : nat)
           (texts : list source) (calls : list call)
-          (second : option (bool * sym * list call)).
+          (second : option (bool * sym * list call))
+          (expected : sx).     (* the canonical observation of the implementation; compared here (see [run]) *)
 
 Definition s_terminals (tk : option (lexcfg * option (list sym))) (terminals : list sym) : list sym :=
   match tk with Some (cfg, _) => cfg_terminals cfg | None => terminals end.
@@ -105,26 +106,63 @@ Definition s_call (tk : option (lexcfg * option (list sym))) (p : parser) (fuel 
 Definition sx_tokens (r : res (list token)) : sx :=
   sx_res (fun toks => SL (map (fun t => SL [sx_str (tname t); sx_str (tvalue t)]) (removelast toks))) r.
 
+(* [expected] is what the implementation did on the same case.  The comparison is made here and only
+   its outcome is printed: () when the model's observation is identical, otherwise
+   (-1 path model-part implementation-part) for the first difference (printing the whole observations
+   of a shard overflows coqc's stack). *)
+Fixpoint sx_diff (a b : sx) : option (list Z * sx * sx) :=
+  match a, b with
+  | SZ x, SZ y => if x =? y then None else Some ([], a, b)
+  | SL l, SL m =>
+      (fix go (i : Z) (l m : list sx) : option (list Z * sx * sx) :=
+         match l, m with
+         | [], [] => None
+         | x :: l', y :: m' =>
+             match sx_diff x y with
+             | Some (p, u, v) => Some (i :: p, u, v)
+             | None => go (i + 1) l' m'
+             end
+         | _, _ => Some ([i], SL l, SL m)
+         end) 0 l m
+  | _, _ => Some ([], a, b)
+  end.
+
+Fixpoint sx_trunc (depth : nat) (s : sx) : sx :=
+  match depth with
+  | O => SL []
+  | S d => match s with
+           | SZ _ => s
+           | SL l => SL (map (sx_trunc d) (firstn 12 l))
+           end
+  end.
+
+Definition observe tk ug terminals smart start fuel texts calls
+    (second : option (bool * sym * list call)) : sx :=
+  match s_build tk ug terminals smart start with
+  | Err e => SL [SZ 1; SZ (err_code e)]
+  | Ok p =>
+      SL [SZ 0; sx_bool (is_ambiguous (p_tables p));
+          sx_bool (hyps_ok ug start p);
+          SL (map (fun src => sx_tokens (s_tokens tk src)) texts);
+          SL (map (fun c => sx_res sx_tree (s_call tk p fuel texts c)) calls);
+          match second with
+          | None => SL []
+          | Some (smart2, start2, calls2) =>
+              match s_build tk ug terminals smart2 start2 with
+              | Err e => SL [SZ 1; SZ (err_code e)]
+              | Ok p2 =>
+                  SL [SZ 0; sx_bool (is_ambiguous (p_tables p2));
+                      SL (map (fun c => sx_res sx_tree (s_call tk p2 fuel texts c)) calls2)]
+              end
+          end]
+  end.
+
 Definition run (c : case) : sx :=
   match c with
   | Old c => Run.run c
-  | Session tk ug terminals smart start fuel texts calls second =>
-      match s_build tk ug terminals smart start with
-      | Err e => SL [SZ 1; SZ (err_code e)]
-      | Ok p =>
-          SL [SZ 0; sx_bool (is_ambiguous (p_tables p));
-              sx_bool (hyps_ok ug start p);
-              SL (map (fun src => sx_tokens (s_tokens tk src)) texts);
-              SL (map (fun c => sx_res sx_tree (s_call tk p fuel texts c)) calls);
-              match second with
-              | None => SL []
-              | Some (smart2, start2, calls2) =>
-                  match s_build tk ug terminals smart2 start2 with
-                  | Err e => SL [SZ 1; SZ (err_code e)]
-                  | Ok p2 =>
-                      SL [SZ 0; sx_bool (is_ambiguous (p_tables p2));
-                          SL (map (fun c => sx_res sx_tree (s_call tk p2 fuel texts c)) calls2)]
-                  end
-              end]
+  | Session tk ug terminals smart start fuel texts calls second expected =>
+      match sx_diff (observe tk ug terminals smart start fuel texts calls second) expected with
+      | None => SL []
+      | Some (p, u, v) => SL [SZ (-1); SL (map SZ p); sx_trunc 5 u; sx_trunc 5 v]
       end
   end.
